@@ -128,7 +128,11 @@ class _Other:
 
 
 class Channel:
+    _n = 0
+
     def __init__(self, client: int, engine_id):
+        Channel._n += 1
+        self.id = f"channel-{Channel._n}"          # RpcChannel.id (a fresh uuid per websocket)
         self.client = client
         self.other = _Other(engine_id)
         self.closed = False
@@ -196,6 +200,9 @@ class World:
             rec["accepted"] = accepted
             if accepted:
                 self.channel[c] = ch
+            else:
+                # the refused websocket is closed: the endpoint runs its disconnect handlers for that channel too
+                await self.dispatcher.on_client_disconnect(ch)
         elif kind == "dis":
             await self.dispatcher.on_client_disconnect(self.channel[c])
             self.channel[c] = None
